@@ -4,6 +4,7 @@ use std::ops::Deref;
 
 use crate::check::context::clss;
 use crate::check::context::field::generic::GenericField;
+use crate::check::ident::LITERAL_NAMES;
 use crate::check::name::string_name::StringName;
 use crate::check::name::Name;
 use crate::check::result::{TypeErr, TypeResult};
@@ -171,6 +172,10 @@ impl TryFrom<&AST> for GenericFunctionArg {
 
 pub fn argument_name(ast: &AST) -> TypeResult<String> {
     match &ast.node {
+        Node::Id { lit } if LITERAL_NAMES.contains(&lit.as_str()) => {
+            let msg = format!("{lit} is a literal, it cannot be the name of an argument");
+            Err(vec![TypeErr::new(ast.pos, &msg)])
+        }
         Node::Id { lit } => Ok(lit.clone()),
         _ => Err(vec![TypeErr::new(
             ast.pos,
